@@ -18,7 +18,7 @@ import (
 
 func maxN(tier string) int {
 	if tier == ev.Thorough {
-		return 2000
+		return 3000
 	}
 	return 300
 }
@@ -42,10 +42,10 @@ func init() {
 			return 8
 		},
 		Exhaustive: false,
-		Rule: "case = (length n, variant): EVERY n in 0..300 x 4 variants (thorough 0..2000 x 3); items added with AddData/AddHash (variant 0: all AddData, no intermediate flush; variants >=1: PRNG mix of AddData/AddHash with 1-3 intermediate Flush points, some followed by replacing the object with a Recover()ed one). At length n: WitnessFor(i) for EVERY i<n is compared with an independently computed witness (own SHA3-256 binary tree over the leaf hashes, block decomposition of n by its binary digits), folded by the harness to the independently computed block root, and passed to Verify; then Flush, all witnesses again; Recover into a fresh object over the same bucket, Len and all witnesses again; add 1..17 more items (or up to the next power of two), all witnesses again; Flush+Recover once more. Non-trivial = distinct (n,variant) with n+1 not a power of two (some root slot is empty).",
+		Rule: "case = (length n, variant): EVERY n in 0..300 x 4 variants (thorough 0..3000 x 3); items added with AddData/AddHash (variant 0: all AddData, no intermediate flush; variants >=1: PRNG mix of AddData/AddHash with 1-3 intermediate Flush points, some followed by replacing the object with a Recover()ed one). At length n: WitnessFor(i) for EVERY i<n is compared with an independently computed witness (own SHA3-256 binary tree over the leaf hashes, block decomposition of n by its binary digits), folded by the harness to the independently computed block root, and passed to Verify; then Flush, all witnesses again; Recover into a fresh object over the same bucket, Len and all witnesses again; add 1..17 more items (or up to the next power of two), all witnesses again; Flush+Recover once more. Non-trivial = distinct (n,variant) with n+1 not a power of two (some root slot is empty).",
 		MinNonTrivial: func(t string) int {
 			if t == ev.Thorough {
-				return 5800
+				return 8500
 			}
 			return 1100
 		},
